@@ -5,8 +5,9 @@ import json
 NAME = "formats"
 FMTS = ["json", "json5", "yaml", "plist"]
 
-SCALARS = [0, 1, 2, 10, -7, 123456789, "a", "ab", "abc", "hello world", "x y", "1", "true", "null", "", True, False, 1.5, -2.25, 1e10]
-KEYS = ["a", "b", "c", "key", "k2", "name", "x y", "1"]
+SCALARS = [0, 1, 2, 10, -7, 123456789, "a", "ab", "abc", "hello world", "x y", "1", "true", "null", "", True, False, 1.5, -2.25, 1e10,
+           "\u00e9t\u00e9", "\U0001F600", "a\U0001F600b", "line\nbreak", "tab\t", "\u2028", "#x", "- y", "k: v", "'q'", '"dq"', "<&>"]
+KEYS = ["a", "b", "c", "key", "k2", "name", "x y", "1", "\u00e9", "\U0001F600", "k\U0001F601z", "true", "null", "#k", "a:b", "<t>"]
 
 
 def gen_datum(r, d=0):
@@ -47,25 +48,100 @@ def gen(rng, tier):
              {"d": [], "t": {}, "argv": []}, {"d": "s", "t": 1, "argv": []}, {"d": {}, "t": [1], "argv": ["-k"]}]
     for _ in range(n):
         d = gen_datum(rng)
-        cases.append({"d": d, "t": mutate(rng, d), "argv": rng.choice(OPTS)})
+        case = {"d": d, "t": mutate(rng, d), "argv": rng.choice(OPTS)}
+        if rng.random() < 0.7:
+            case["variant"] = {f: rng.choice(vs) for f, vs in VARIANTS.items()}
+        cases.append(case)
+    # repeated sub-documents (YAML aliases), astral characters in keys and values, in every encoding variant
+    rep = {"k\U0001F600": [1, {"a": "\U0001F601"}], "x": [1, {"a": "\U0001F601"}], "y": {"z": [1, {"a": "\U0001F601"}]}}
+    rept = {"k\U0001F600": [1, {"a": "\U0001F601"}], "x": [2, {"a": "\U0001F601"}], "w": {"z": [1, {"a": "\U0001F601"}]}}
+    for vj in VARIANTS["json"]:
+        for vy in VARIANTS["yaml"]:
+            for vp in VARIANTS["plist"]:
+                cases.append({"d": rep, "t": rept, "argv": rng.choice(OPTS), "variant": {"json": vj, "json5": vj, "yaml": vy, "plist": vp}})
     return cases
 
 
-def _write(d, base, dirpath):
+def _share(d, memo=None):
+    """Equal sub-containers become ONE Python object, which yaml then writes as an anchor and aliases."""
+    memo = {} if memo is None else memo
+    if isinstance(d, list):
+        d = [_share(x, memo) for x in d]
+    elif isinstance(d, dict):
+        d = {k: _share(v, memo) for k, v in d.items()}
+    else:
+        return d
+    if not d:
+        return d
+    return memo.setdefault(json.dumps(d, sort_keys=True), d)
+
+
+def _write(d, base, dirpath, variant=None):
+    """The same datum in every format; `variant` picks among equivalent encodings of each format (escaped or literal
+    non-ASCII, block or flow YAML with or without aliases, XML or binary property list)."""
     import os, plistlib, yaml
+    v = variant or {}
     paths = {}
-    txt = json.dumps(d)
     for f in ("json", "json5"):
         p = os.path.join(dirpath, f"{base}.{f}")
-        open(p, "w").write(txt)
+        kind = v.get(f, "ascii")
+        txt = json.dumps(d, ensure_ascii=(kind != "utf8"), indent=(2 if kind == "indent" else None))
+        open(p, "w", encoding="utf-8").write(txt)
         paths[f] = p
     p = os.path.join(dirpath, f"{base}.yaml")
-    open(p, "w").write(yaml.safe_dump(d))
+    kind = v.get("yaml", "block")
+    if kind == "alias":
+        txt = yaml.safe_dump(_share(d))
+    elif kind == "flow":
+        txt = yaml.safe_dump(d, default_flow_style=True, allow_unicode=True)
+    else:
+        txt = yaml.safe_dump(d)
+    open(p, "w", encoding="utf-8").write(txt)
     paths["yaml"] = p
     p = os.path.join(dirpath, f"{base}.plist")
-    open(p, "wb").write(plistlib.dumps(d))
+    open(p, "wb").write(plistlib.dumps(d, fmt=plistlib.FMT_BINARY if v.get("plist") == "binary" else plistlib.FMT_XML))
     paths["plist"] = p
     return paths
+
+
+VARIANTS = {"json": ["ascii", "utf8", "indent"], "json5": ["ascii", "utf8", "indent"], "yaml": ["block", "alias", "flow"], "plist": ["xml", "binary"]}
+
+
+def _strict_eq(a, b):
+    if type(a) is not type(b):
+        return False
+    if isinstance(a, list):
+        return len(a) == len(b) and all(_strict_eq(x, y) for x, y in zip(a, b))
+    if isinstance(a, dict):
+        return set(a) == set(b) and all(_strict_eq(a[k], b[k]) for k in a)
+    return a == b
+
+
+def _join_surrogates(x):
+    if isinstance(x, str):
+        try:
+            return x.encode("utf-16", "surrogatepass").decode("utf-16")
+        except UnicodeError:
+            return x
+    if isinstance(x, list):
+        return [_join_surrogates(v) for v in x]
+    if isinstance(x, dict):
+        return {_join_surrogates(k): _join_surrogates(v) for k, v in x.items()}
+    return x
+
+
+def _reference_agrees(d, paths):
+    """Do the reference parsers (independent of graphtage's loaders) read the datum back from every file?  Only then
+    is it "the same data, expressible in every format"."""
+    import json5, plistlib, yaml
+    try:
+        got = {"json": json.load(open(paths["json"], encoding="utf-8")),
+               "json5": _join_surrogates(json5.load(open(paths["json5"], encoding="utf-8"))),
+               "yaml": yaml.safe_load(open(paths["yaml"], encoding="utf-8")),
+               "plist": plistlib.load(open(paths["plist"], "rb"))}
+    except Exception:
+        return False
+    return all(_strict_eq(d, g) for g in got.values())
 
 
 def _opts(argv):
@@ -86,8 +162,8 @@ def impl(case):
     DEFAULT_PRINTER.quiet = True
     dirpath = tempfile.mkdtemp(prefix="gtverif_")
     try:
-        pd = _write(case["d"], "d", dirpath)
-        pt = _write(case["t"], "t", dirpath)
+        pd = _write(case["d"], "d", dirpath, case.get("variant"))
+        pt = _write(case["t"], "t", dirpath, case.get("variant"))
 
         def load(paths, f):
             return graphtage.FILETYPES_BY_TYPENAME[f].build_tree(paths[f], _opts(case["argv"]))
@@ -98,6 +174,8 @@ def impl(case):
             except Exception as e:
                 objs[f] = "EXC:" + type(e).__name__
         same_obj = all(objs[f] == objs["json"] for f in FMTS)
+        ref_ok = _reference_agrees(case["d"], pd) and _reference_agrees(case["t"], pt)
+        objs_differ = [f for f in FMTS if not _strict_eq(objs[f], case["d"])] if ref_ok else []
         cost, eq, third, exit_ = {}, {}, {}, {}
         for a in FMTS:
             for b in FMTS:
@@ -123,7 +201,7 @@ def impl(case):
                 rc2 = r2["rc"] if not r2["exc"] else "EXC:" + r2["exc"]
                 if rc2 != exit_[k]:
                     exit_[k] = f"{exit_[k]} by extension but {rc2} with --from-{a} --to-{b}"
-        return {"same_obj": same_obj, "cost": cost, "eq": eq, "third": third, "exit": exit_}
+        return {"same_obj": same_obj, "ref_ok": ref_ok, "objs_differ": objs_differ, "cost": cost, "eq": eq, "third": third, "exit": exit_}
     finally:
         shutil.rmtree(dirpath, ignore_errors=True)
 
@@ -132,9 +210,11 @@ def monitor(case, obs):
     if not isinstance(obs, dict) or obs.get("error"):
         return [{"prop": "C09", "key": "harness-error", "what": repr(obs)[:300]}]
     hits = []
-    if not obs["same_obj"]:
-        # the external parsers disagree on the datum: outside "expressible in every format" (assumption check)
+    if not obs.get("ref_ok", obs["same_obj"]):
+        # the reference parsers do not read the datum back from every file: outside "expressible in every format"
         return []
+    for f in obs.get("objs_differ", []):
+        hits.append({"prop": "C09", "key": f"loaded-data-differs:{f}", "what": f"the {f} loader's tree holds other data (to_obj()) than the file, which json / json5 / yaml / plistlib all read back as the original datum"})
     for k, c in obs["cost"].items():
         if c != 0:
             hits.append({"prop": "C09", "key": f"nonzero:{k}", "what": f"same data loaded as {k}: cost {c}"})
@@ -148,7 +228,7 @@ def monitor(case, obs):
 
 
 def to_model(case, obs):
-    if not isinstance(obs, dict) or obs.get("error") or not obs.get("same_obj"):
+    if not isinstance(obs, dict) or obs.get("error") or not obs.get("same_obj") or not obs.get("ref_ok", True):
         return None
     from harness.streams.script import enc
     a = case["argv"]
@@ -164,7 +244,9 @@ def expect(case, obs):
 def classify(case, obs):
     d = case["d"]
     kind = "dict" if isinstance(d, dict) else "list" if isinstance(d, list) else "scalar"
-    return kind + ":" + ("parsers-agree" if isinstance(obs, dict) and obs.get("same_obj") else "parsers-disagree")
+    v = case.get("variant") or {}
+    return kind + ":" + ("parsers-agree" if isinstance(obs, dict) and obs.get("ref_ok") else "inexpressible") + ":" + \
+        "/".join(v.get(f, "-") for f in FMTS)
 
 
 def nontrivial(case, obs):
